@@ -72,6 +72,9 @@ class Types:
         m = re.match(r'^(.*?)\s+(const)$', t)
         if m: cv = 'const '; t = m.group(1)
         t = re.sub(r'^(class|struct|enum)\s+', '', t)
+        for cand in (t, 'ST::' + t, '_ST_PRIVATE::' + t):
+            if cand in self.ix.typedefs and self.ix.typedefs[cand] != t:
+                return self.name(cv + self.ix.typedefs[cand])
         key = norm_class(t)
         for cand in (key, 'ST::' + key, '_ST_PRIVATE::' + key):
             if cand in self.ix.records:
@@ -101,6 +104,18 @@ class Types:
             if not m: break
             qt = m.group(1).strip()
             stars = ('* const ' if 'const' in m.group(2) else '*') + stars
+        core = re.sub(r'\b(const|volatile)\b', '', qt).strip()
+        core = re.sub(r'^(class|struct|enum|typename)\s+', '', core)
+        for cand in (core, 'ST::' + core, '_ST_PRIVATE::' + core):
+            if cand in self.ix.typedefs and self.ix.typedefs[cand] != core:
+                under = self.ix.typedefs[cand]
+                if under.rstrip().endswith(('*', '&', ']')) or '*' in under:
+                    # typedef of a pointer type: re-parse the whole declarator with the expansion in place
+                    cvq = 'const ' if re.search(r'\bconst\b', qt) and not under.rstrip().endswith('*') else ''
+                    full = cvq + under + ' ' + stars.replace(' ', '') + (' &' if isref else '') + arr
+                    if re.search(r'\bconst\b', qt) and under.rstrip().endswith('*'): full = under + ' const ' + stars.replace(' ', '') + (' &' if isref else '') + arr
+                    return self.decl(full, name)
+                break
         base = self.name(qt)
         if isref: stars = stars + '*'
         return re.sub(r'\s+', ' ', '%s %s%s%s' % (base, stars, name, arr)).strip(), isref
@@ -161,6 +176,7 @@ class Index:
         self.vars = {}       # namespace-scope VarDecl id -> (qualname, node)
         self.fields = {}     # FieldDecl id -> (classqual, node)
         self.needed_records = []; self.needed_enums = []
+        self.typedefs = {}
         self.cnames = {}
     def need_record(self, q):
         if q not in self.needed_records: self.needed_records.append(q)
@@ -220,6 +236,11 @@ class Index:
         if k == 'VarDecl':
             q = '::'.join(ctx + [name or ''])
             self.vars[n['id']] = (q, n)
+            return
+        if k in ('TypedefDecl', 'TypeAliasDecl'):
+            q = '::'.join(ctx + [name or ''])
+            t = n.get('type', {})
+            self.typedefs[q] = t.get('desugaredQualType') or t.get('qualType')
             return
         if k == 'FieldDecl' and cls:
             self.fields[n['id']] = (cls, n)
